@@ -212,12 +212,43 @@ def level2_superposition(repo, res):
     return forms
 
 
+def lin_cond(repo, res):
+    """LIN-COND: direction angles of an excitation vector are obtained with arctan2, never with arccos / arcsin of a normalised
+    component: near +-1 these lose half of the digits (d arccos(x) / dx -> infinity), a transversal part below ~1e-8 of a nearly axial
+    polarization vanishes, so B(Ja + Jb) != B(Ja) + B(Jb).  Scanned: the numerical layer and every repo function it imports by name."""
+    todo, seen = [], set()
+    for m in repo.mods.values():
+        if m.name.startswith("magpylib._src.fields.") and not m.name.endswith("field_wrap_BH"):
+            for f in m.funcs.values():
+                todo.append((m, f))
+    n = 0
+    while todo:
+        m, f = todo.pop()
+        if (m.name, f.name) in seen:
+            continue
+        seen.add((m.name, f.name))
+        n += 1
+        for c in ast.walk(f):
+            if isinstance(c, ast.Call):
+                nm = call_name(c)
+                if nm in ("arccos", "arcsin", "acos", "asin"):
+                    res.add(Finding("LIN-COND", m.rel, f.name, c, "arccos/arcsin of a normalised component on the field path: ill conditioned near +-1, small components of the "
+                                    "excitation are distorted or lost (use arctan2)", c.lineno))
+                if isinstance(c.func, ast.Name):
+                    r = repo.resolve_name(m, c.func.id)
+                    if r and r[0] == "func" and not r[1].name.startswith("magpylib._src.fields."):
+                        todo.append((r[1], r[2]))
+    res.ob("LIN-COND:no arccos/arcsin on the field path", not any(f.rule == "LIN-COND" for f in res.findings), {"rule": "LIN-COND", "functions_scanned": n}, nontrivial=False)
+    res.require(n >= 40, f"LIN-COND: only {n} functions of the numerical layer scanned")
+
+
 def run(repo, res, tier):
     res.rules = ["excitation degree of B,H == 1", "LIN class: Lin proved, Affine violation, NonLin undecided",
                  "SUM-AXIS/SUM-ORDER: sumup reduces axis 0 after pixel aggregation", "SUM-SLICE: collection rows summed and removed consistently", "SUM-LEN: collection row counts come from the flattener",
                  "MEMO: flattened collection views are not memoised without invalidation",
-                 "SUM-OFFSET: loop-carried row offsets accumulate", "SUM-SIBLING: superposed sibling calls agree"]
+                 "LIN-COND: no arccos/arcsin of excitation components", "SUM-OFFSET: loop-carried row offsets accumulate", "SUM-SIBLING: superposed sibling calls agree"]
     level2_superposition(repo, res)
+    lin_cond(repo, res)
     results = dim_rules.run_fields(fields="BH")
     res.require(len(results) >= 20, f"only {len(results)} runs: registry anchors changed")
     errors = []
